@@ -41,6 +41,19 @@ func c14Package(rng *rand.Rand, idx int) (rcase, []c14op) {
 	}
 	var ops []c14op
 	var junk []string
+	// component responses shared between operations, under different status codes, one of them through an alias
+	type sharedResp struct {
+		name string
+		pl   c10plan
+	}
+	var shared []sharedResp
+	for _, name := range []string{"NotFound", "Conflict"} {
+		r, pl := g.c10Response(sp, name, &junk, "")
+		sp.CompResponses[name] = r
+		shared = append(shared, sharedResp{name, pl})
+	}
+	sp.CompResponses["Gone"] = dialect.Response{Ref: "NotFound"}
+	shared = append(shared, sharedResp{"Gone", shared[0].pl})
 	nops := 4 + rng.Intn(4)
 	tmpls := []string{"/items", "/items/{id}", "/items/{id}/parts/{part}", "/", "/a/b/", "/{x}", "/{x}/{y}", "/files/{name}/raw", "/items/{id}/", "/search"}
 	used := map[string]bool{}
@@ -120,6 +133,14 @@ func c14Package(rng *rand.Rand, idx int) (rcase, []c14op) {
 				if plans[i].kind == "json" {
 					plans[i].gotype += "JSON"
 				}
+			}
+			if rng.Intn(2) == 0 {
+				sh := shared[rng.Intn(len(shared))]
+				pl := sh.pl
+				pl.status = []string{"404", "409", "410"}[rng.Intn(3)]
+				pl.gotype, pl.comp = sh.name+"Response", sh.name
+				o.Responses = append(o.Responses, dialect.Response{Status: pl.status, Ref: sh.name})
+				plans = append(plans, pl)
 			}
 			pi.Ops = append(pi.Ops, o)
 			ops = append(ops, c14op{pi, o, body, plans})
